@@ -49,6 +49,9 @@ def mm(A, B):
                 acc = acc + A[i][k] * B[k][j]
             row.append(acc)
         out.append(row)
+    if symbolic_mode() and getattr(T.ctx(), 'let_products', True):
+        from pyvc import lets as _lets
+        out = [[_lets.let('mm', x) for x in row] for row in out]
     return out
 
 
@@ -79,6 +82,18 @@ def madd(A, B, sign=1):
 
 
 I3 = [[1, 0, 0], [0, 1, 0], [0, 0, 1]]
+
+
+def named(name, x):
+    """give a (matrix of) symbolic value(s) a name of its own: a fresh symbol with the defining hypothesis"""
+    if not symbolic_mode():
+        return x
+    from pyvc import lets as _lets
+    if isinstance(x, list):
+        return [named('%s_%d' % (name, i), v) for i, v in enumerate(x)]
+    if isinstance(x, (T.R,)):
+        return _lets.let(name, x, force=True)
+    return x
 
 
 def det3(M):
